@@ -1,3 +1,2 @@
--- This module serves as the root of the `Mimic` library.
--- Import modules here that should be built as part of the library.
-import Mimic.Basic
+import Mimic.Control
+import Mimic.Drv
